@@ -21,7 +21,8 @@ META = {
         "re-serialized JSON, accept / reject verdict, constants and enumeration literals"
     ),
     "rule": (
-        "(a) every accepted invariant expression of the C07/C08 space, 8 per class, on 62 "
+        "(a) every accepted invariant expression of the C07/C08 space which is boolean and "
+        "total as Python (the others are C07's findings), 24 per class, on 62 "
         "instances: the set of (path, message) from the TypeScript verification equals "
         "the Python one; (b) the 44 property shapes of C10 in one holder and 12 single "
         "holders: every SDK-written JSON document of every instance variation and every "
@@ -32,7 +33,7 @@ META = {
         "Python SDK reports an error or rejects"
     ),
     "bounds": {
-        "quick": "(a) expressions of depth 1 in 1 of 4 slices... all slices are run, each slice holds a quarter of the packs; (b) all-shapes holder + 4 single holders; (c) one constants model",
+        "quick": "(a) expressions of depth 1; (b) all-shapes holder + 4 single holders; (c) one constants model",
         "thorough": "(a) expressions of depth 2; (b) all-shapes holder + 12 single holders; (c) one constants model",
     },
     "assumptions": [
@@ -105,6 +106,17 @@ for (const name of job.enums) {
 }
 process.stdout.write(JSON.stringify({results: out, constants: constants, enums: enums}));
 """
+
+
+_DESCRIPTIONS = {}  # type: Dict[str, str]
+
+
+def describe(body: str) -> str:
+    """`family:operand class` of an expression of the space (as in C07's signatures)."""
+    if not _DESCRIPTIONS:
+        for production, tags, other in gen_inv.expressions(2):
+            _DESCRIPTIONS[other] = c07.signature_of("x", production, tags).split(":", 1)[1]
+    return _DESCRIPTIONS.get(body, "?")
 
 
 def ts_name(name: str) -> str:
@@ -237,7 +249,7 @@ def compare(
                     match = _re.match(r"Invariant (\d+) of the pack", message)
                     if match and bodies:
                         culprit = bodies[int(match.group(1))]
-                        family = c08.production_label(culprit)
+                        family = describe(culprit)
                         break
                 side = "only-python" if only_python and not only_typescript else ("only-typescript" if only_typescript and not only_python else "both")
                 result.add_violation(
@@ -328,7 +340,9 @@ def explore_expressions(tier: str, index: int, slices: int, result: Result, base
             continue
         result.states += 1
         verdict, _ = c07.accept(body, base / "accept")
-        if verdict == "accepted" and not c08.raises_somewhere(probe_env, body, instances):
+        # Expressions which raise or which are not boolean as Python are C07's findings;
+        # their truthiness differs between languages by design and is not compared.
+        if verdict == "accepted" and c07.judge(probe_env, body, instances) is None and not c08.raises_somewhere(probe_env, body, instances):
             accepted.append(body)
     pack_size = 24
     for start in range(0, len(accepted), pack_size):
